@@ -427,7 +427,7 @@ static uint64_t writer_bytes()
   auto* tc = quill::detail::LoggerBase::thread_context;
   if (!tc) { return 0; }
 #ifdef H2_MIXED
-  if (tc->has_unbounded_queue_type()) { return tc->get_spsc_queue_union().unbounded_spsc_queue._producer->bounded_queue._writer_pos; }
+  if (tc->has_unbounded_queue_type()) { return h2_unbounded_writer_bytes(tc); } // cumulative over the nodes of the chain
 #endif
 #if H2_VARIANT <= 1
   return tc->get_spsc_queue_union().bounded_spsc_queue._writer_pos;
